@@ -83,8 +83,8 @@ CHECKS.update({
                 text="Decides reachability facts that are necessary for encoding independence: marginal differencing writes at the differenced dimension's own common coordinate (the `0 instead of dim.common` mutant passes every test fixture); grand totals in the corner depend only on fact/weight arrays and the row count; walk, fill closures and reduce never compare a coordinate with an integer literal other than -1 and never read .common; shift_common stores the old common rows before deleting the new common's entries and before rebinding .common, per column in the 2-D branch.",
                 note="Declined: cell-by-cell invariance of every aggregate under re-encoding (values).", ref="4 C05"),
     "C18": dict(cat="other", technique="predicate extraction for stddev per configuration; sentinel-mask/validity identity; NaN-seeding normal forms of constructor fields; delegation-call table",
-                text="NARROW CLAIM (second sentence only). The stddev missing-cell mask contains valid<2 under both policies; for stddev, quantile, min, max, corrcoef, covariance the pair-format validity is the negation of the mask at which the sentinel is written and that mask is taken from the values before replacement; invalid rows (fact AND weight validity) are NaN-seeded in the constructors and ignore_missing selects by validity / uses nanquantile; each statistic delegates to the documented NumPy routine (quantile/nanquantile axis=0, amin/amax, corrcoef rowvar=False, cov(segment.T, aweights), N-1 divisor).",
-                note="Declined, loudly: per-cell numerical equality with the textbook statistic (floating point). The weighted quantile ignoring a missing value that sorts beyond the quantile (a value-level defect named in the property) is NOT decided by this check.", ref="4 C18"),
+                text="NARROW CLAIM (second sentence only). The stddev missing-cell mask contains valid<2 under both policies; for stddev, quantile, min, max, corrcoef, covariance the pair-format validity is the negation of the mask at which the sentinel is written and that mask is taken from the values before replacement; invalid rows (fact AND weight validity) are NaN-seeded in the constructors and ignore_missing selects by validity / uses nanquantile; each statistic delegates to the documented NumPy routine (quantile/nanquantile axis=0, amin/amax, corrcoef rowvar=False, cov(segment.T, aweights), N-1 divisor); the weighted quantile under propagation is dominated by a whole-segment missing test (R-C18-e).",
+                note="Declined, loudly: per-cell numerical equality with the textbook statistic (floating point).", ref="4 C18"),
 })
 
 CHECKS.update({
